@@ -57,3 +57,10 @@ Proof.
   split; [|vm_compute; reflexivity].
   intros v Hv. do 4 (destruct v as [|v]; [vm_compute; reflexivity|]). lia.
 Qed.
+
+(* the recursive presentation computes the same list as the machine (n = 4, shard 1 of 2) *)
+Example spec_example :
+  spec canon0 ksub0 no_prune no_prune 4 1 2 =
+  match outs0 no_prune no_prune 4 1 2 with Ok l => Some l | _ => None end /\
+  len_res (outs0 no_prune no_prune 4 1 2) = 9.
+Proof. vm_compute. auto. Qed.
